@@ -614,7 +614,7 @@ package tchannel
 
 // The non-relay dispatcher: error frames go to handleError (E5, above).
 // DispatchOK: what the other handlers it dispatches to need of the connection.
-//@ pred DispatchOK(c *Connection) := c.statsReporter != nil && c.opts.FramePool != nil && c.baseContext != nil
+//@ pred DispatchOK(c *Connection) := c.statsReporter != nil && c.opts.FramePool != nil && c.baseContext != nil && c.timeNow != nil
 //@ func (c *Connection) handleFrameNoRelay(frame *Frame) (release bool)
 //@   nosafety
 //@   requires FrameFull(frame) && frame.Header.size >= 16
